@@ -2,7 +2,7 @@
    deap.gp returned (str(tree), re.split tokens, from_string, compile(...)( *args ), compileADF,
    renameArguments); check recomputes everything with the model over V = Z. *)
 From Coq Require Import List ZArith Bool String Ascii.
-From DV Require Export Base.Corr Base.C12_Str Model.C12_GPPrint.
+From DV Require Export Base.Corr Base.C12_Str Model.C12_GPPrint Model.C12_GenRt.
 Import ListNotations.
 Local Open Scope Z_scope.
 
@@ -76,7 +76,8 @@ Inductive case :=
 | CEval (ps : pset) (ctx : list (string * op)) (t : list node) (runs : list (list Z * option Z))
 | CAdf (defs : list adfspec) (runs : list (list Z * option Z))
 | CRename (ps : pset) (kargs : list (string * string)) (obs : option pset)
-| CBuild (prefix : string) (tys : list nat) (ops : list bop) (obs : option (pset * list string)).
+| CBuild (prefix : string) (tys : list nat) (ops : list bop) (obs : option (pset * list string))
+| CCode (ps : pset) (t : list node) (obs : string).   (* the code string gp.compile hands to eval *)
 
 Definition check (c : case) : bool :=
   match c with
@@ -103,4 +104,5 @@ Definition check (c : case) : bool :=
   | CBuild prefix tys ops obs =>
       option_eqb (fun a b => pset_eqb (fst a) (fst b) && set_eqb (snd a) (snd b))
                  (pset_build ops (pset_init prefix tys, [])) obs
+  | CCode ps t obs => str_eqb (code_with "," ps t) obs || str_eqb (code_with ", " ps t) obs
   end.
